@@ -31,6 +31,11 @@ def _estimate_system_molecular_weight(molecules, system_molweight):
                 total_fraction += mol.mixture.relative_mass
                 num_fractions += 1
 
+    if total_fraction > 100.0 + 1e-6:
+        raise RuntimeError(
+            f"Error adjusting system fractional weight. Total fraction {total_fraction} exceeds 100."
+        )
+
     if num_fractions == len(molecules) - 1:
         weight = 100.0 - total_fraction
         if weight < 0 or weight > 100.0:
